@@ -82,10 +82,13 @@ def removedRefs (old new : List (Nat × Nat)) : List (Nat × Nat) := old.filter 
 
 /-- the reference-index part of one loop iteration. `prev` = comparison base (in-batch predecessor
 if any, else stored latest), `inBatch` = an in-batch predecessor exists. -/
-def writeRefs (rs : List RefKey) (ds t : Nat) (prev : Option Ent) (inBatch : Bool) (e : Ent) : List RefKey :=
+def writeRefs (rs : List RefKey) (ds t : Nat) (prev : Option Ent) (inBatch : Bool) (isnew : Bool) (e : Ent) : List RefKey :=
   match prev with
   | none =>
-    if e.deleted then rs      -- (a brand-new *deleted* entity writes tombstones only; unobservable)
+    if e.deleted then
+      -- an identifier seen for the very first time takes the `isnew` branch, which writes its refs
+      -- with the deleted bit; an id that is only new to this dataset writes nothing
+      if isnew then e.refs.foldl (fun rs r => refSet rs ⟨e.rid, t, r.1, r.2, true, ds⟩) rs else rs
     else e.refs.foldl (fun rs r => refSet rs ⟨e.rid, t, r.1, r.2, false, ds⟩) rs
   | some p =>
     if e.deleted then
@@ -108,32 +111,32 @@ def countNew (db : DB) (ds : Nat) (prev : Option Ent) : DB :=
   if prev.isNone then { db with items := setAssoc ds (db.itemsOf ds + 1) db.items } else db
 
 /-- the `txn.Set` calls of one accepted element: entity, change log entry, latest pointer, ref keys. -/
-def appendVersion (db : DB) (ds t i : Nat) (e : Ent) (prev : Option Ent) (inBatch : Bool) : DB :=
+def appendVersion (db : DB) (ds t i : Nat) (e : Ent) (prev : Option Ent) (inBatch : Bool) (isnew : Bool := false) : DB :=
   let k : VKey := ⟨e.rid, ds, t, i⟩
   { db with versions := db.versions ++ [(k, e)], changes := db.changes ++ [(ds, db.posOf ds, k)],
             latest := setAssoc (ds, e.rid) k db.latest,
-            refs := writeRefs db.refs ds t prev inBatch e,
+            refs := writeRefs db.refs ds t prev inBatch isnew e,
             nextPos := setAssoc ds (db.posOf ds + 1) db.nextPos }
 
 /-- one iteration of the write loop. `snap` = read snapshot taken at function entry, `loc` =
 `localLatests`. The element is skipped iff it is identical to the version it would replace. -/
-def writeOne (snap : DB) (ds t : Nat) (st : DB × List (Nat × Ent)) (x : Nat × Ent) : DB × List (Nat × Ent) :=
+def writeOne (snap : DB) (ds t : Nat) (newIds : List Nat) (st : DB × List (Nat × Ent)) (x : Nat × Ent) : DB × List (Nat × Ent) :=
   let prev := prevOf snap ds st.2 x.2.rid
   let db0 := countNew st.1 ds prev
   if prev = some x.2 then (db0, st.2)
-  else (appendVersion db0 ds t x.1 x.2 prev (st.2.lookup x.2.rid).isSome, (x.2.rid, x.2) :: st.2)
+  else (appendVersion db0 ds t x.1 x.2 prev (st.2.lookup x.2.rid).isSome (newIds.contains x.2.rid), (x.2.rid, x.2) :: st.2)
 
-def writeFrom (snap : DB) (ds t : Nat) : Nat → List Ent → DB × List (Nat × Ent) → DB × List (Nat × Ent)
+def writeFrom (snap : DB) (ds t : Nat) (newIds : List Nat) : Nat → List Ent → DB × List (Nat × Ent) → DB × List (Nat × Ent)
   | _, [], st => st
-  | i, e :: xs, st => writeFrom snap ds t (i + 1) xs (writeOne snap ds t st (i, e))
+  | i, e :: xs, st => writeFrom snap ds t newIds (i + 1) xs (writeOne snap ds t newIds st (i, e))
 
 /-- `StoreEntities`: one batch into one dataset at commit time `t`. -/
-def storeBatch (db : DB) (ds t : Nat) (b : List Ent) : DB := (writeFrom db ds t 0 b (db, [])).1
+def storeBatch (db : DB) (ds t : Nat) (b : List Ent) (newIds : List Nat := []) : DB := (writeFrom db ds t newIds 0 b (db, [])).1
 
 /-- `ExecuteTransaction`: every dataset's batch reads the pre-transaction snapshot, all writes carry
 the same commit time and become visible together. -/
-def execTxn (db : DB) (t : Nat) (parts : List (Nat × List Ent)) : DB :=
-  parts.foldl (fun acc p => (writeFrom db p.1 t 0 p.2 (acc, [])).1) db
+def execTxn (db : DB) (t : Nat) (parts : List (Nat × List Ent)) (newIds : List Nat := []) : DB :=
+  parts.foldl (fun acc p => (writeFrom db p.1 t newIds 0 p.2 (acc, [])).1) db
 
 def insertBy (lt : α → α → Bool) (x : α) : List α → List α
   | [] => [x]
